@@ -21,7 +21,7 @@ import (
 // as given — no case folding anywhere between the form value and the tests
 // that type it (only exactly true / false / null are constants).
 func ruleQueryValuesCaseSensitive(c *chk.Ctx) {
-	f := c.M.JhttpPkg.Func("ParseQuery")
+	f := c.M.Func(c.M.JhttpPkg, "ParseQuery")
 	if f == nil {
 		c.Undecided("TABLE.query", nil, "ParseQuery", 0, "not found")
 		return
@@ -321,7 +321,7 @@ func isConstLike(v ssa.Value) bool {
 // own flag and nothing else, so that toggling an option back restores the
 // documented behaviour.
 func ruleFuncInfoFixedAfterCheck(c *chk.Ctx) {
-	check := c.M.HandlerPkg.Func("Check")
+	check := c.M.Func(c.M.HandlerPkg, "Check")
 	if check == nil {
 		c.Undecided("WHO.snapshot", nil, "Check", 0, "not found")
 		return
@@ -396,7 +396,7 @@ func ruleWrapperRecvKeepsPayload(c *chk.Ctx) {
 				return
 			}
 			cc := &call.Call
-			if (cc.IsInvoke() && cc.Method.Name() == "Recv") || (cc.StaticCallee() != nil && cc.StaticCallee().Name() == "Recv" && cc.StaticCallee() != f) {
+			if (cc.IsInvoke() && cc.Method.Name() == "Recv") || (cc.StaticCallee() != nil && ir.BaseName(cc.StaticCallee()) == "Recv" && cc.StaticCallee() != f) {
 				inner = call
 			}
 		})
